@@ -17,7 +17,7 @@ EXPLANATION = ("Decided from MIR facts: (R1) Container::new_with_locator chains 
                "ContainerPackCreator::add_pack / InContainerFile::close record offset = position before, size = after - before. "
                "Equality of the logical dump across packagings is not decided."
                " (R6) tools::concat copies every pack whole under its own uuid; (R7) the manifest search visits every pack (only exits: next pack, error, Ok(Some(pack at hand))); (R8) locations recorded by BasicCreator::finalize are empty or made relative with diff_utf8_paths."
-               ' Added later: (R9) the size declared by a tail header is bounded by reader.size() itself and may equal it. (R10) Container::new looks for other packs next to the path it was given (no canonicalisation).')
+               ' Added later: (R9) the size declared by a tail header is bounded by reader.size() itself and may equal it. (R10) Container::new looks for other packs next to the path it was given (no canonicalisation). (R1) every locator list built in new_with_locator is the full chain [container, caller\'s locator].')
 ASSUMPTIONS = ["std::io seek/tell semantics", "HashMap lookup by uuid", "rustc MIR construction and trait resolution"]
 
 CONSTRUCTORS = (r"content_pack::ContentPack::new$", r"directory_pack::DirectoryPack::new$", r"manifest_pack::ManifestPack::new$")
@@ -35,19 +35,25 @@ def r1_chain(cx):
     cl = b.calls(r"ChainedLocator::new$")
     cx.ob("R1", "R1/new_with_locator/one-chain", len(cl) == 1, f, "Container::new_with_locator builds exactly one ChainedLocator (found %d)" % len(cl))
     if len(cl) == 1:
-        arr = None
+        # every list of locators built here (the chain is the same on every path: a "shorter" chain on some condition
+        # stops looking at the recorded location for the packs the condition misjudges)
+        arrs = []
         for blk in b.blocks:
             for s in blk["s"]:
-                if s["k"] == "assign" and s["rv"]["k"] == "agg" and s["rv"]["ak"] == "array" and "PackLocatorTrait" in s["rv"].get("elem", "") and len(s["rv"]["fields"]) >= 2:
-                    arr = s
-        ok = arr is not None
+                if s["k"] == "assign" and s["rv"]["k"] == "agg" and s["rv"]["ak"] == "array" and "PackLocatorTrait" in s["rv"].get("elem", ""):
+                    arrs.append(s)
+        ok = bool(arrs)
         msg = "locator array not found"
-        if ok:
+        for arr in arrs:
+            if len(arr["rv"]["fields"]) != 2:
+                ok = False
+                msg = "a list of %d locator(s) is built at line %s: the chain is [container opened from the given file, caller's locator] on every path" % (len(arr["rv"]["fields"]), arr.get("ln"))
+                break
             f0 = b.origins(arr["rv"]["fields"][0])
             f1 = b.origins(arr["rv"]["fields"][1])
             first_is_container = any(o[0] == "call" and call_is(b.term(o[1]), r"jubako::open_as_container_pack$") for o in f0)
             second_is_param = ("param", 2) in f1 and not any(o[0] == "call" and call_is(b.term(o[1]), r"open_as_container_pack$") for o in f1)
-            ok = first_is_container and second_is_param and len(arr["rv"]["fields"]) == 2
+            ok = ok and first_is_container and second_is_param
             msg = "locators = [container opened from the given file, caller's locator]: first-from-open_as_container_pack=%s second-is-parameter=%s" % (first_is_container, second_is_param)
         cx.ob("R1", "R1/new_with_locator/order", ok, f, msg, ln=cl[0][1].get("ln"))
         # the directory pack and the content packs are located through that chain
